@@ -17,9 +17,9 @@ RULE = ("each case: format in {SDMF, MDMF}, k<=3, N<=5, the mutable segment size
         "must still read back as the model. Non-trivial = a successful update that crosses a segment boundary, ends on one, or changes the number of segments; "
         "distinct by whole case.")
 LEVEL_TEXT = "Random histories against a byte-string reference model, compared after every step, with boundary-directed generation."
-ASSUMPTIONS = ["honest servers, one writer", "each update uses a freshly obtained best version (as the web API and SFTP front ends do)",
+ASSUMPTIONS = ["one writer; servers are honest, except that a 'flaky-writes' step makes chosen servers fail or not acknowledge their next write calls during the following operation (that operation may then fail; if it reports success the model applies)", "each update uses a freshly obtained best version (as the web API and SFTP front ends do)",
                "update with offset > size is not generated (the code asserts offset <= size)", "ranged reads lie inside the file (Retrieve.download asserts it; the web front end clips ranges before calling)"]
-REQUIRED_CLASSES = ["mdmf", "sdmf", "update-cross-boundary", "update-ends-on-boundary", "update-grows-segments", "update-append", "modify", "reopen", "multi-segment", "overwrite-shrink"]
+REQUIRED_CLASSES = ["verified-by-second-client", "update-ok-under-flaky-writes", "mdmf", "sdmf", "update-cross-boundary", "update-ends-on-boundary", "update-grows-segments", "update-append", "modify", "reopen", "multi-segment", "overwrite-shrink"]
 BUDGET = {"quick": 900, "thorough": 7200}
 # classes of operations that fail today without damaging the file (outside the statement: it speaks about successful operations); counted in the evidence
 TOLERATED_FAILURES = "update at EOF of an MDMF file whose size is a multiple of the segment size; update of an empty file"
@@ -44,12 +44,13 @@ def cases(draw):
     ops = draw(st.lists(st.one_of(
         st.tuples(st.just("update"), pos, length, st.integers(0, 9)),
         st.tuples(st.just("update"), pos, length, st.integers(0, 9)),
+        st.tuples(st.just("flaky"), st.lists(st.tuples(st.integers(0, 5), st.sampled_from(["nth", "all", "dead-nth", "unacked"]), st.integers(0, 2)).map(list), min_size=1, max_size=5)),
         st.tuples(st.just("overwrite"), length, st.integers(0, 9)),
         st.tuples(st.just("modify"), st.sampled_from(["append", "prepend", "replace", "identity"]), pos, length, st.integers(0, 9)),
         st.tuples(st.just("read"), pos, length),
         st.tuples(st.just("reopen")),
     ).map(list), min_size=1, max_size=8))
-    return {"fmt": draw(st.sampled_from(["sdmf", "mdmf", "mdmf"])), "k": k, "n": n, "seg": seg, "size0": draw(length), "ops": ops,
+    return {"observer": draw(st.booleans()), "fmt": draw(st.sampled_from(["sdmf", "mdmf", "mdmf"])), "k": k, "n": n, "seg": seg, "size0": draw(length), "ops": ops,
             "sched": draw(st.lists(st.integers(0, 9), max_size=draw(st.sampled_from([0, 40, 300]))))}
 
 
@@ -90,19 +91,50 @@ def run_case(case, ctx):
         def desc():
             return "fmt=%s k=%d N=%d segsize=%d history=%r" % (fmt, k, n, seg, hist)
 
+        flaky = ever_flaky = False
+        observer = []
+        bricked = False
+        maybe = None     # contents the file may ALSO hold: an operation that failed under flaky writes may or may not have been applied
+
         def verify(after):
-            r = g.run(node.download_best_version())
+            nonlocal maybe, bricked
+            if ever_flaky:
+                # stale shares of the previous version may remain where writes failed: survey every server (see vf/mutfile.read_full_survey)
+                r = mutfile.read_full_survey(g, client, node)
+                if r[0] != "ok" and maybe is not None:
+                    # an operation that FAILED under injected write failures may leave fewer than k shares of any one version (no atomicity across servers)
+                    classes.add("unrecoverable-after-failed-op")
+                    bricked = True
+                    return
+            elif case.get("observer"):
+                # read through ANOTHER client's node object, so that the writer's node is not refreshed by the verification read
+                if not observer:
+                    oc = g.add_client()
+                    observer.append(oc.nodemaker.create_from_cap(cap))
+                    classes.add("verified-by-second-client")
+                r = g.run(observer[0].download_best_version())
+            else:
+                r = g.run(node.download_best_version())
             if r[0] != "ok":
                 ctx.fail("read-failed", "%s: download_best_version after %s failed: %r" % (desc(), after, r))
                 return
             got = r[1]
+            if maybe is not None and got == maybe and got != bytes(model):
+                model[:] = maybe
+                classes.add("failed-op-was-applied")
+            maybe = None
             if got != bytes(model):
                 first = next((i for i in range(min(len(got), len(model))) if got[i] != model[i]), min(len(got), len(model)))
                 ctx.fail("wrong-contents", "%s: after %s the file reads %d bytes, expected %d; first difference at offset %d (segment %d)" % (desc(), after, len(got), len(model), first, first // seg), after=after)
-            r = g.run(node.get_size_of_best_version())
+            r = g.run(node.get_size_of_best_version()) if not (ever_flaky or case.get("observer")) else ("ok", len(model))
             ctx.check(r == ("ok", len(model)), "wrong-size", "%s: get_size_of_best_version after %s = %r, expected %d" % (desc(), after, r, len(model)))
         verify("create")
         for op in case["ops"]:
+            if op[0] != "flaky" and hist and hist[-1][0] != "flaky-writes":
+                if flaky:
+                    for srv in g.servers:
+                        srv.fail.clear(); srv.dead_for.clear(); srv.fail_after.clear()
+                flaky = False
             size = len(model)
             nseg_before = -(-size // seg)
             if len(model) > seg:
@@ -130,6 +162,8 @@ def run_case(case, ctx):
                     if end % seg == 0 and end < size:
                         classes.add("update-ends-on-boundary")
                         nt = True
+                    if flaky:
+                        classes.add("update-ok-under-flaky-writes")
                     if -(-len(model) // seg) != nseg_before:
                         classes.add("update-grows-segments")
                         nt = True
@@ -137,10 +171,12 @@ def run_case(case, ctx):
                         classes.add("update-append")
                 else:
                     hist[-1] = hist[-1] + ("FAILED:" + (type(r[1]).__name__ if r[0] == "err" else r[0]),)
+                    if flaky:
+                        maybe = bytes(model[:off]) + new + bytes(model[off + ln:])
                     classes.add("op-failed:update:" + (type(r[1]).__name__ if r[0] == "err" else r[0]))
                     if r[0] == "hang":
                         ctx.fail("hang", "%s: update never completed" % desc())
-                    if core:
+                    if core and not ever_flaky:
                         failed_core.append(hist[-1])
                         ctx.fail("update-failed", "%s: in-place update(offset=%d, %d bytes) of a %d-byte %s file failed on an honest grid: %r" % (desc(), off, ln, size, fmt, r[1]), exc=type(r[1]).__name__)
             elif op[0] == "overwrite":
@@ -152,8 +188,11 @@ def run_case(case, ctx):
                     if ln < size:
                         classes.add("overwrite-shrink")
                     model[:] = new
-                else:
+                elif not ever_flaky:
                     ctx.fail("overwrite-failed", "%s: overwrite failed on an honest grid: %r" % (desc(), r), exc=type(r[1]).__name__ if r[0] == "err" else r[0])
+                else:
+                    classes.add("op-failed-under-flaky-writes")
+                    maybe = new
             elif op[0] == "modify":
                 kind = op[1]
                 off = mutfile.resolve(op[2], size, seg)
@@ -176,8 +215,13 @@ def run_case(case, ctx):
                     res = modifier(old, None, True)
                     if res is not None:
                         model[:] = res
-                else:
+                elif not ever_flaky:
                     ctx.fail("modify-failed", "%s: modify failed on an honest grid: %r" % (desc(), r), exc=type(r[1]).__name__ if r[0] == "err" else r[0])
+                else:
+                    classes.add("op-failed-under-flaky-writes")
+                    maybe = modifier(bytes(model), None, True)
+            elif op[0] == "read" and ever_flaky:
+                continue
             elif op[0] == "read":
                 off = mutfile.resolve(op[1], size, seg)
                 ln = min(rlen(op[2], off, size, seg), size - off)   # Retrieve.download's precondition: the range lies inside the file (callers clip)
@@ -199,12 +243,31 @@ def run_case(case, ctx):
                 else:
                     ctx.check(c.data() == want, "wrong-range", "%s: read(offset=%d,size=%d) returned %d bytes differing from the model slice" % (desc(), off, ln, len(c.data())))
                 continue
+            elif op[0] == "flaky":
+                # environment fault for the NEXT operation only: some servers fail (or apply but do not acknowledge) their next write calls
+                W = "slot_testv_and_readv_and_writev"
+                for (sidx, how, nth) in op[1]:
+                    srv = g.servers[sidx % len(g.servers)]
+                    at = srv.calls.get(W, 0) + nth
+                    if how == "nth":
+                        srv.fail[W] = {at}
+                    elif how == "all":
+                        srv.fail[W] = set(range(at, at + 4))
+                    elif how == "dead-nth":
+                        srv.dead_for[W] = {at}
+                    else:
+                        srv.fail_after[W] = {at}
+                hist.append(("flaky-writes", op[1]))
+                flaky = ever_flaky = True
+                continue
             elif op[0] == "reopen":
                 hist.append(("reopen",))
                 client = g.add_client()
                 node = client.nodemaker.create_from_cap(cap)
                 classes.add("reopen")
             verify(hist[-1][0])
+            if bricked:
+                break
     finally:
         g.stop()
         mutfile.restore_segsize()
